@@ -249,6 +249,7 @@ def explore(d, env=None, lang="yaql", form=0, tok="task", rng=None, inputs=None)
     bud0 = {"pause": env.get("pause", 0), "resume": 0, "cancel": env.get("cancel", 0),
             "persist": env.get("persist", 0), "rerun": env.get("rerun", 0)}
     r0 = Real(d, lang=lang, form=form, tok=tok, inputs=inputs)
+    r0.use_delayed = bool(env.get("delayed"))
     steps = apply_choice(r0, ["boot"], env.get("lazy"))
     n = tree.add_steps(0, steps, ["boot"])
     seen = set()
@@ -290,10 +291,11 @@ def explore(d, env=None, lang="yaql", form=0, tok="task", rng=None, inputs=None)
     return tree
 
 
-def run_schedule(d, schedule, lang="yaql", form=0, tok="task", lazy=False, inputs=None):
+def run_schedule(d, schedule, lang="yaql", form=0, tok="task", lazy=False, inputs=None, delayed=False):
     """Replay a list of choices (a `--replay` file, or a behaviour emitted by TLC) on a fresh
     conductor; returns the Real with its recorded steps."""
     r = Real(d, lang=lang, form=form, tok=tok, inputs=inputs)
+    r.use_delayed = bool(delayed)
     for ch in schedule:
         apply_choice(r, ch, lazy)
     return r
